@@ -19,8 +19,8 @@ Open Scope N_scope.
    (rewrite block configured iff the dataset is deep), the chunk fetched by
    HttpAccessor at its flat URL equals what the local FileAccessor returns:
    the stored bytes, or a data-access error when absent.  Guards: the name
-   universe of C12; non-negative chunk coordinates (the documented rewrite
-   rule matches [0-9]+ only). *)
+   universe of C12; a one-component scale key (as generated); non-negative
+   chunk coordinates (the documented rewrite rule matches [0-9]+ only). *)
 Theorem C14_http_eq_local_plain :
   forall (B : Type) (plain : list N -> B) (gz : N -> list N -> B) (gunzip : B -> gzres),
   (forall l b, gunzip (gz l b) = GzOk b) ->
@@ -32,7 +32,8 @@ Theorem C14_http_eq_local_plain :
   forall sc dpath,
   base c = s_root sc ++ ne_parts dpath -> s_rewrite sc = negb (flat c) -> s_gzip_static sc = true ->
   forall t m key co,
-  Inv B plain gz c ex U t m -> op_ok c ex U X (OFetchChunk key co) -> nonneg co ->
+  Inv B plain gz c ex U t m -> simple_comp key = true ->
+  op_ok c ex U X (OFetchChunk key co) -> nonneg co ->
   fst (hrun B (serve B (plain []) slice sc t) 0
             (http_fetch_chunk B plain gunzip (base_url sc dpath) key co))
   = out_data B (fst (run_op B plain gz gunzip c t (OFetchChunk key co))).
@@ -116,39 +117,100 @@ Theorem C14_http_exists_status :
 Proof. exact exists_status. Qed.
 Print Assumptions C14_http_exists_status.
 
-(* finding sharded-http-minishard-dict.  The sharded HTTP reader as coded
-   (fetch_cmc_chunk consults minishard_dict, never filled) returns an error
-   or crashes for EVERY server, shard, index content and identifier: it never
-   returns data ... *)
-Theorem C14_http_sharded_refuted :
+(* Sharded datasets (single .shard files as well as legacy .index/.data
+   pairs), for ANY tree: for a scale directory served as documented for
+   sharded data (no rewriting, no Content-Encoding: no pre-compressed twin of
+   a shard file, Range support), the sharded HTTP reader's result for an
+   identifier - HEAD probes, Range reads of the shard index and of the
+   minishard indices, the lookup, the Range read of the chunk - equals what the
+   shard-reading algorithm that the local and the HTTP reader share returns on
+   the local files, reading with the length check.  Which minishard holds an
+   identifier and where the chunk lies in it ([locate]), and the index / data
+   decoders, are taken as given (cluster B's models). *)
+Theorem C14_http_eq_local_sharded :
   forall (B : Type) (plain : list N -> B) (gunzip : B -> gzres) (unplain : B -> option (list N))
-         (idx_decode : list N -> option (list N)) (locate : list (list N) -> N -> outcome (N * N))
-         (data_decode : list N -> outcome (list N)),
-  forall scale_url shard_name hl cmc (srv : server B) n,
-  exists e, fst (hrun B srv n (hs_fetch B plain gunzip unplain idx_decode locate data_decode false
-                                       scale_url shard_name hl cmc)) = e
-            /\ match e with Ok _ => False | _ => True end.
-Proof.
-  intros. apply http_sharded_never_data.
-Qed.
-Print Assumptions C14_http_sharded_refuted.
+         (slice : B -> N -> N -> option B),
+  (forall x, unplain (plain x) = Some x) ->
+  (forall d x a b, unplain d = Some x ->
+     slice d a b = if lenN x <=? a then None
+                   else Some (plain (firstn (N.to_nat (b + 1 - a)) (skipn (N.to_nat a) x)))) ->
+  forall sc (t : fs B) upath name,
+  s_rewrite sc = false -> tree_closed B t -> cleanb (sdir sc upath) = true ->
+  no_slash name /\ name <> [] ->
+  (forall suffix, In suffix [s_shard; s_index; s_data] ->
+     file_at B t (with_gz (shard_file (sdir sc upath) name suffix)) = None) ->
+  (forall suffix d, In suffix [s_shard; s_index; s_data] ->
+     lookup B t (shard_file (sdir sc upath) name suffix) = Some (File d) -> exists x, unplain d = Some x) ->
+  forall idx_decode locate data_decode hl cmc n,
+  fst (hrun B (serve B (plain []) slice sc t) n
+         (hs_fetch B plain gunzip unplain idx_decode locate data_decode (scale_url sc upath) name hl cmc))
+  = omap B plain
+      (shard_fetch_pure idx_decode locate data_decode
+         (local_ex B t (sdir sc upath) name) (local_rd B unplain true t (sdir sc upath) name hl) IOErr hl cmc).
+Proof. exact http_eq_local_sharded. Qed.
+Print Assumptions C14_http_eq_local_sharded.
 
-(* ... e.g. on a well-formed one-chunk shard served with Range support the
-   fetch ends in AssertionError, while with the proposed one-word repair
-   (ro_minishard_dict) it returns the chunk's byte *)
-Theorem C14_http_sharded_refuted_witness :
-  w_fetch false = Crash AssertionError /\ w_fetch true = Ok (BPlain [65]).
-Proof. exact http_sharded_refuted_witness. Qed.
-Print Assumptions C14_http_sharded_refuted_witness.
+(* the length check only turns data into an error: whenever that checked
+   reader returns bytes, the local reader as coded (plain seek + read; a
+   missing shard fails its assertion) returns the same bytes; so data fetched
+   over HTTP is always the local reader's data *)
+Theorem C14_sharded_checked_is_local :
+  forall (B : Type) (unplain : B -> option (list N)) idx_decode locate data_decode
+         (t : fs B) dir name hl cmc d,
+  shard_fetch_pure idx_decode locate data_decode
+    (local_ex B t dir name) (local_rd B unplain true t dir name hl) IOErr hl cmc = Ok d ->
+  shard_fetch_pure idx_decode locate data_decode
+    (local_ex B t dir name) (local_rd B unplain false t dir name hl) (Crash AssertionError) hl cmc = Ok d.
+Proof. exact sharded_checked_is_local. Qed.
+Print Assumptions C14_sharded_checked_is_local.
 
-(* finding http-empty-path: base URL normalisation succeeds iff the URL has a
-   non-empty path; "http://h:80" raises IndexError *)
-Theorem C14_http_init_on_guard : forall url,
-  u_path (urlsplit url) <> [] -> exists bu, http_init url = Ok bu.
-Proof. exact http_init_on_guard. Qed.
-Print Assumptions C14_http_init_on_guard.
+(* reads that lie within the file are not affected by the check (so on
+   well-formed shards the two readers coincide) *)
+Theorem C14_local_read_in_bounds :
+  forall (B : Type) (unplain : B -> option (list N)) (t : fs B) dir name hl lg off len f y,
+  lookup B t (shard_file dir name (fst (pick lg hl off))) = Some (File f) -> unplain f = Some y ->
+  snd (pick lg hl off) + len <= lenN y ->
+  local_rd B unplain true t dir name hl lg off len = local_rd B unplain false t dir name hl lg off len.
+Proof. exact local_rd_in_bounds. Qed.
+Print Assumptions C14_local_read_in_bounds.
 
-Theorem C14_empty_path_refuted :
-  exists url, u_path (urlsplit url) = [] /\ http_init url = Crash IndexError.
-Proof. exact empty_path_refuted. Qed.
-Print Assumptions C14_empty_path_refuted.
+(* for any stateless server at all, the sharded HTTP fetch is that algorithm
+   over the server's answers (used for the fault statements of C18) *)
+Theorem C14_hs_fetch_is_algo :
+  forall (B : Type) (plain : list N -> B) (gunzip : B -> gzres) (unplain : B -> option (list N))
+         idx_decode locate data_decode (srv : server B),
+  (forall n m r, srv n r = srv m r) ->
+  forall scale_url shard_name hl cmc n,
+  fst (hrun B srv n (hs_fetch B plain gunzip unplain idx_decode locate data_decode scale_url shard_name hl cmc))
+  = omap B plain (shard_fetch_pure idx_decode locate data_decode
+            (fun suffix => http_ex B srv ((scale_url ++ shard_name) ++ suffix))
+            (http_rd B plain gunzip unplain srv (scale_url ++ shard_name) hl) IOErr hl cmc).
+Proof. exact hs_fetch_is_algo. Qed.
+Print Assumptions C14_hs_fetch_is_algo.
+
+(* non-vacuity: a well-formed one-chunk shard, served: HTTP, checked and
+   unchecked local readers all return the chunk's byte; a server answering
+   404 to everything gives an I/O error *)
+Theorem C14_http_sharded_example :
+  w_fetch = Ok (BPlain [65]) /\ w_local true = Ok [65] /\ w_local false = Ok [65].
+Proof. exact http_sharded_witness. Qed.
+Print Assumptions C14_http_sharded_example.
+
+Theorem C14_missing_shard_is_io_error :
+  fst (hrun blob w_all_404 0
+         (hs_fetch blob BPlain (blob_gunzip []) w_unplain (fun b => Some b) w_locate (fun b => Ok b)
+                   [104;47;107;47] [48] 16 0)) = IOErr.
+Proof. exact missing_shard_io_error. Qed.
+Print Assumptions C14_missing_shard_is_io_error.
+
+(* base URL normalisation never fails; an empty path becomes "/" *)
+Theorem C14_http_init_total : forall url, exists bu, http_init url = Ok bu.
+Proof. exact http_init_total. Qed.
+Print Assumptions C14_http_init_total.
+
+Theorem C14_http_init_empty_path_example :
+  u_path (urlsplit [104;116;116;112;58;47;47;104;58;56;48]) = [] /\
+  http_init [104;116;116;112;58;47;47;104;58;56;48]
+  = Ok [104;116;116;112;58;47;47;104;58;56;48;47].
+Proof. exact http_init_empty_path_example. Qed.
+Print Assumptions C14_http_init_empty_path_example.
